@@ -1,0 +1,10 @@
+//go:build !verif
+// +build !verif
+
+package mqtt
+
+// simInitID is a verification hook which is disabled in normal builds.
+func simInitID() (uint32, bool) { return 0, false }
+
+// simYield is a verification hook which is disabled in normal builds.
+func simYield(site string) {}
